@@ -49,6 +49,18 @@ Definition count_nests (s : list item) : nat := length (filter is_nest s).
    delivers a character (nested-call points allowed) *)
 Definition no_eof (s : list item) : Prop := forall i, In i s -> is_eof i = false.
 
+(* ---- what the property promises for one query ------------------------------------
+   stream = (any interleaving of failed reads with the characters of
+   extra ++ CSI rs ; cs R) ++ trail; [cb] = a callback was given; [nests] = nested
+   call points passed (bookkeeping for the diff logic) *)
+Definition expected_outcome (cb : bool) (extra rs cs : str) (trail : list item) (nests : nat) : outcome :=
+  let pos := (Z.of_N (value rs) - 1, Z.of_N (value cs) - 1)%Z in
+  match extra with
+  | [] => mkOut (Ok pos) [] trail nests
+  | _ :: _ => if cb then mkOut (Ok pos) [extra] trail nests
+              else mkOut (Raise ValueError) [] trail nests
+  end.
+
 (* ---- executable reference for arbitrary streams (used by the correspondence) -- *)
 (* s is EXACTLY one report: strip the CSI, cut at the first ';', the last
    character must be 'R', both pieces non-empty digit strings *)
@@ -156,3 +168,31 @@ Definition diff_relation (w : wstate) (ret : Z) (w' : wstate) (rows : list Z) : 
         (* no movement: returns 0 and changes nothing *)
         (if forallb (Z.eqb ref) rows then Z.eqb ret 0 && Z.eqb (top w') (top w) else true)
     end.
+
+(* movement part of one step of a history: state before, operation, observation *)
+Definition step_rel (w : wstate) (o : op) (ob : obs) : bool :=
+  match o with
+  | OpSet t l => wstate_eqb (ob_w ob) (mkW t l (in_diff w) (another w))
+  | OpRender _ _ _ =>
+      (* _last_cursor_row is the row the render left the cursor on *)
+      match ob_rows ob with
+      | [r] => optZ_eqb (last (ob_w ob)) (Some r) &&
+               Bool.eqb (in_diff (ob_w ob)) (in_diff w) && Bool.eqb (another (ob_w ob)) (another w)
+      | _ => false
+      end
+  | OpDiff _ _ =>
+      match ob_ret ob with
+      | Ok [dy] => diff_relation w dy (ob_w ob) (ob_rows ob)
+      | Ok _ => false
+      | Raise e => exn_eqb e ValueError
+      end
+  | OpPos _ _ => wstate_eqb (ob_w ob) w       (* a direct query changes none of the four fields *)
+  end.
+
+(* every step of a history, each judged against the state the previous one left *)
+Fixpoint hist_rel (w : wstate) (ops : list op) (obs : list obs) : bool :=
+  match ops, obs with
+  | [], [] => true
+  | o :: ops', ob :: obs' => step_rel w o ob && hist_rel (ob_w ob) ops' obs'
+  | _, _ => false
+  end.
